@@ -411,6 +411,12 @@ func spell(r *core.Rand, w *Workload, i, j int) ImportSpec {
 			}
 		}
 		is.Spell = stripExt(t.Path)
+		if w.Family == "plain" && (w.Seed+uint64(7*j))%4 == 0 {
+			// this file is imported without a version wherever its full name is spelled: the
+			// retriever reads the default branch (HEAD) and the file's relative imports inherit
+			// that, next to files of the same repository that are read at w.RemoteV
+			return is
+		}
 		is.Ver = w.RemoteV
 		is.Spell += "@" + is.Ver
 		return is
